@@ -35,14 +35,17 @@ VARIABLES tid, l, ok, why, failedAt,
           deleted,     \* the executor reference was dropped
           timeouts,    \* number of clean worker exits (idle timeout / sentinel)
           maxw,        \* largest max_workers in force
+          hasTmo,      \* the executor has an idle timeout
+          multi,       \* several user threads call the API
+          liveAtCall,  \* workers alive when the current get_reusable_executor call began
           subAfterShut \* tasks accepted after a shutdown began (must not happen)
 vars == <<tid, l, ok, why, failedAt, kindOf, started, finished, resolved, cancelled, cancelling, running, live, crashed, crashedSettled, brokenSeen,
-          shutdownAt, shutRet, exited, deleted, timeouts, maxw, subAfterShut>>
+          shutdownAt, shutRet, exited, deleted, timeouts, maxw, hasTmo, multi, liveAtCall, subAfterShut>>
 
 Init == /\ tid \in 1..Len(Traces) /\ l = 1 /\ ok = TRUE /\ why = "none" /\ failedAt = 0
         /\ kindOf = <<>> /\ started = <<>> /\ finished = {} /\ resolved = <<>> /\ cancelled = {} /\ cancelling = {} /\ running = {}
         /\ live = {} /\ crashed = FALSE /\ crashedSettled = FALSE /\ brokenSeen = FALSE /\ shutdownAt = "none" /\ shutRet = FALSE
-        /\ exited = FALSE /\ deleted = FALSE /\ timeouts = 0 /\ maxw = 0 /\ subAfterShut = {}
+        /\ exited = FALSE /\ deleted = FALSE /\ timeouts = 0 /\ maxw = 0 /\ hasTmo = FALSE /\ multi = FALSE /\ liveAtCall = {} /\ subAfterShut = {}
 
 Ev == Traces[tid][l]
 Get(f, k, d) == IF k \in DOMAIN f THEN f[k] ELSE d
@@ -62,7 +65,7 @@ ExpectedType(k) == CASE k = "raise" -> "ValueError" [] k = "sysexit" -> "SystemE
                      [] OTHER -> "any"      \* unpicklable result / exception: some exception, but only for this future
 
 State == <<kindOf, started, finished, resolved, cancelled, cancelling, running, live, crashed, crashedSettled, brokenSeen, shutdownAt, shutRet,
-           exited, deleted, timeouts, maxw, subAfterShut>>
+           exited, deleted, timeouts, maxw, hasTmo, multi, liveAtCall, subAfterShut>>
 \* after the first failing clause the rest of the trace is skipped; the verdict is printed once per trace
 Skip == /\ ~ok /\ l <= Len(Traces[tid]) /\ l' = l + 1 /\ tid' = tid /\ UNCHANGED <<ok, why, failedAt, State>>
 Report == /\ l = Len(Traces[tid]) + 1 /\ l' = l + 1 /\ tid' = tid /\ UNCHANGED <<ok, why, failedAt, State>>
@@ -71,12 +74,12 @@ Step ==
   /\ ok /\ l <= Len(Traces[tid]) /\ l' = l + 1 /\ tid' = tid
   /\ LET e == Ev IN
      CASE e.ev = "cfg" ->
-            /\ maxw' = e.maxw /\ crashed' = e.res        \* res: the scenario contains a failing initializer (breaks the pool)
-            /\ UNCHANGED <<kindOf, started, finished, resolved, cancelled, cancelling, running, live, crashedSettled, brokenSeen, shutdownAt, shutRet, exited, deleted, timeouts, subAfterShut>> /\ Fine
+            /\ maxw' = e.maxw /\ hasTmo' = e.wait /\ multi' = e.kill /\ crashed' = e.res        \* res: the scenario contains a failing initializer (breaks the pool)
+            /\ UNCHANGED <<kindOf, started, finished, resolved, cancelled, cancelling, running, live, crashedSettled, brokenSeen, shutdownAt, shutRet, exited, deleted, timeouts, liveAtCall, subAfterShut>> /\ Fine
        [] e.ev = "submit" ->
             /\ kindOf' = Put(kindOf, e.t, e.kind)
             /\ subAfterShut' = IF shutdownAt # "none" \/ exited THEN subAfterShut \cup {e.t} ELSE subAfterShut
-            /\ UNCHANGED <<started, finished, resolved, cancelled, cancelling, running, live, crashed, crashedSettled, brokenSeen, shutdownAt, shutRet, exited, deleted, timeouts, maxw>>
+            /\ UNCHANGED <<started, finished, resolved, cancelled, cancelling, running, live, crashed, crashedSettled, brokenSeen, shutdownAt, shutRet, exited, deleted, timeouts, maxw, hasTmo, multi, liveAtCall>>
             /\ Check(<< <<"C05", shutRet, "C05: submit() was accepted after shutdown() had returned">>,
                         <<"C06", shutRet, "C06: submit() was accepted after shutdown(kill_workers=True) had returned">>,
                         <<"C02", brokenSeen, "C02: submit() was accepted after the pool had failed futures with BrokenProcessPool">>,
@@ -84,7 +87,7 @@ Step ==
                         <<"C18", crashedSettled /\ e.kind = "probe" /\ timeouts = 0, "C18: an initializer failure did not break the pool">> >>)
        [] e.ev = "submit_rejected" ->
             /\ brokenSeen' = (brokenSeen \/ e.bpp)
-            /\ UNCHANGED <<kindOf, started, finished, resolved, cancelled, cancelling, running, live, crashed, crashedSettled, shutdownAt, shutRet, exited, deleted, timeouts, maxw, subAfterShut>>
+            /\ UNCHANGED <<kindOf, started, finished, resolved, cancelled, cancelling, running, live, crashed, crashedSettled, shutdownAt, shutRet, exited, deleted, timeouts, maxw, hasTmo, multi, liveAtCall, subAfterShut>>
             /\ Check(<< <<"C04", e.bpp /\ ~Disturbed, "C04: submit() raised BrokenProcessPool although no worker died: a task-level failure broke the pool">>,
                         <<"C07", e.bpp /\ ~Disturbed, "C07: submit() raised BrokenProcessPool in a run with idle timeouts only">>,
                         <<"C05", e.bpp /\ ~Disturbed, "C05: the pool was flagged broken during a graceful shutdown">>,
@@ -94,7 +97,7 @@ Step ==
        [] e.ev = "start" ->
             /\ started' = Put(started, e.t, Get(started, e.t, 0) + 1)
             /\ running' = running \cup {<<e.t, e.pid>>}
-            /\ UNCHANGED <<kindOf, finished, resolved, cancelled, cancelling, live, crashed, crashedSettled, brokenSeen, shutdownAt, shutRet, exited, deleted, timeouts, maxw, subAfterShut>>
+            /\ UNCHANGED <<kindOf, finished, resolved, cancelled, cancelling, live, crashed, crashedSettled, brokenSeen, shutdownAt, shutRet, exited, deleted, timeouts, maxw, hasTmo, multi, liveAtCall, subAfterShut>>
             /\ Check(<< <<"C03", Get(started, e.t, 0) >= 1, "C03: a task body was executed twice">>,
                         <<"C07", Get(started, e.t, 0) >= 1, "C07: a task was duplicated">>,
                         <<"C03", e.t \in cancelled, "C03: a task ran although cancel() had returned True">>,
@@ -102,18 +105,18 @@ Step ==
        [] e.ev = "finish" ->
             /\ finished' = finished \cup {e.t}
             /\ running' = running \ {<<e.t, e.pid>>}
-            /\ UNCHANGED <<kindOf, started, resolved, cancelled, cancelling, live, crashed, crashedSettled, brokenSeen, shutdownAt, shutRet, exited, deleted, timeouts, maxw, subAfterShut>> /\ Fine
+            /\ UNCHANGED <<kindOf, started, resolved, cancelled, cancelling, live, crashed, crashedSettled, brokenSeen, shutdownAt, shutRet, exited, deleted, timeouts, maxw, hasTmo, multi, liveAtCall, subAfterShut>> /\ Fine
        [] e.ev = "cancel_call" ->
             /\ cancelling' = cancelling \cup {e.t}
-            /\ UNCHANGED <<kindOf, started, finished, resolved, cancelled, running, live, crashed, crashedSettled, brokenSeen, shutdownAt, shutRet, exited, deleted, timeouts, maxw, subAfterShut>> /\ Fine
+            /\ UNCHANGED <<kindOf, started, finished, resolved, cancelled, running, live, crashed, crashedSettled, brokenSeen, shutdownAt, shutRet, exited, deleted, timeouts, maxw, hasTmo, multi, liveAtCall, subAfterShut>> /\ Fine
        [] e.ev = "cancel" ->
             /\ cancelled' = IF e.res \/ Get(resolved, e.t, "") = "cancelled" THEN cancelled \cup {e.t} ELSE cancelled \ {e.t}
-            /\ UNCHANGED <<kindOf, started, finished, resolved, cancelling, running, live, crashed, crashedSettled, brokenSeen, shutdownAt, shutRet, exited, deleted, timeouts, maxw, subAfterShut>>
+            /\ UNCHANGED <<kindOf, started, finished, resolved, cancelling, running, live, crashed, crashedSettled, brokenSeen, shutdownAt, shutRet, exited, deleted, timeouts, maxw, hasTmo, multi, liveAtCall, subAfterShut>>
             /\ Check(<< <<"C03", e.res /\ Get(started, e.t, 0) >= 1, "C03: cancel() returned True for a task that had already started">> >>)
        [] e.ev = "resolve" ->
             /\ resolved' = Put(resolved, e.t, e.outcome)
             /\ brokenSeen' = (brokenSeen \/ (e.outcome = "exception" /\ e.bpp))
-            /\ UNCHANGED <<kindOf, started, finished, cancelled, cancelling, running, live, crashed, crashedSettled, shutdownAt, shutRet, exited, deleted, timeouts, maxw, subAfterShut>>
+            /\ UNCHANGED <<kindOf, started, finished, cancelled, cancelling, running, live, crashed, crashedSettled, shutdownAt, shutRet, exited, deleted, timeouts, maxw, hasTmo, multi, liveAtCall, subAfterShut>>
             /\ LET k == Get(kindOf, e.t, "unknown")
                    isBpp == e.outcome = "exception" /\ e.bpp
                    isShut == e.outcome = "exception" /\ e.shut
@@ -137,27 +140,27 @@ Step ==
                >>)
        [] e.ev = "spawn" ->
             /\ live' = live \cup {e.pid}
-            /\ UNCHANGED <<kindOf, started, finished, resolved, cancelled, cancelling, running, crashed, crashedSettled, brokenSeen, shutdownAt, shutRet, exited, deleted, timeouts, maxw, subAfterShut>>
+            /\ UNCHANGED <<kindOf, started, finished, resolved, cancelled, cancelling, running, crashed, crashedSettled, brokenSeen, shutdownAt, shutRet, exited, deleted, timeouts, maxw, hasTmo, multi, liveAtCall, subAfterShut>>
             /\ Fine
        [] e.ev = "reg" ->
-            /\ UNCHANGED <<kindOf, started, finished, resolved, cancelled, cancelling, running, live, crashed, crashedSettled, brokenSeen, shutdownAt, shutRet, exited, deleted, timeouts, maxw, subAfterShut>>
+            /\ UNCHANGED <<kindOf, started, finished, resolved, cancelled, cancelling, running, live, crashed, crashedSettled, brokenSeen, shutdownAt, shutRet, exited, deleted, timeouts, maxw, hasTmo, multi, liveAtCall, subAfterShut>>
             /\ Check(<< <<"C08", maxw > 0 /\ e.n > maxw, "C08: more than max_workers workers are registered">> >>)
        [] e.ev = "die" ->
             /\ live' = live \ {e.pid}
             /\ running' = {x \in running : x[2] # e.pid}
             /\ crashed' = (crashed \/ (e.how = "crash" /\ ~e.late))
             /\ timeouts' = IF e.how = "exit" THEN timeouts + 1 ELSE timeouts
-            /\ UNCHANGED <<kindOf, started, finished, resolved, cancelled, cancelling, crashedSettled, brokenSeen, shutdownAt, shutRet, exited, deleted, maxw, subAfterShut>>
+            /\ UNCHANGED <<kindOf, started, finished, resolved, cancelled, cancelling, crashedSettled, brokenSeen, shutdownAt, shutRet, exited, deleted, maxw, hasTmo, multi, liveAtCall, subAfterShut>>
             /\ Check(<< <<"C05", e.how = "exit" /\ e.code # 0 /\ ~Disturbed, "C05: a worker left with a non-zero exit status during a graceful run">>,
                         <<"C07", e.how = "killed" /\ ~Disturbed /\ shutdownAt # "kill", "C07: a worker was killed in a run with idle timeouts only (timeout exit reported as a crash)">>,
                         <<"C05", e.how = "killed" /\ ~Disturbed /\ shutdownAt # "kill", "C05: a worker was killed during a graceful shutdown">>,
                         <<"C07", e.how = "exit" /\ (\E x \in running : x[2] = e.pid), "C07: a worker left while it was holding a task">> >>)
        [] e.ev = "shutdown_call" ->
             /\ shutdownAt' = IF e.kill THEN "kill" ELSE IF shutdownAt = "kill" THEN "kill" ELSE "graceful"
-            /\ UNCHANGED <<kindOf, started, finished, resolved, cancelled, cancelling, running, live, crashed, crashedSettled, brokenSeen, shutRet, exited, deleted, timeouts, maxw, subAfterShut>> /\ Fine
+            /\ UNCHANGED <<kindOf, started, finished, resolved, cancelled, cancelling, running, live, crashed, crashedSettled, brokenSeen, shutRet, exited, deleted, timeouts, maxw, hasTmo, multi, liveAtCall, subAfterShut>> /\ Fine
        [] e.ev = "shutdown_ret" ->
             /\ shutRet' = (shutRet \/ e.wait)
-            /\ UNCHANGED <<kindOf, started, finished, resolved, cancelled, cancelling, running, live, crashed, crashedSettled, brokenSeen, shutdownAt, exited, deleted, timeouts, maxw, subAfterShut>>
+            /\ UNCHANGED <<kindOf, started, finished, resolved, cancelled, cancelling, running, live, crashed, crashedSettled, brokenSeen, shutdownAt, exited, deleted, timeouts, maxw, hasTmo, multi, liveAtCall, subAfterShut>>
             /\ Check(<< <<"C05", e.wait /\ ~e.kill /\ live # {} /\ ~Disturbed, "C05: shutdown(wait=True) returned while workers are still alive">>,
                         <<"C06", e.wait /\ e.kill /\ live # {}, "C06: shutdown(kill_workers=True) returned while workers are still alive">>,
                         <<"C05", e.wait /\ ~e.kill /\ ~Disturbed /\ (\E t \in DOMAIN kindOf : t \notin DOMAIN resolved /\ t \notin subAfterShut),
@@ -165,28 +168,35 @@ Step ==
                         <<"C06", e.wait /\ e.kill /\ (\E t \in DOMAIN kindOf : t \notin DOMAIN resolved), "C06: shutdown(kill_workers=True) returned and left a future unresolved">> >>)
        [] e.ev = "exit_call" ->
             /\ exited' = TRUE
-            /\ UNCHANGED <<kindOf, started, finished, resolved, cancelled, cancelling, running, live, crashed, crashedSettled, brokenSeen, shutdownAt, shutRet, deleted, timeouts, maxw, subAfterShut>> /\ Fine
+            /\ UNCHANGED <<kindOf, started, finished, resolved, cancelled, cancelling, running, live, crashed, crashedSettled, brokenSeen, shutdownAt, shutRet, deleted, timeouts, maxw, hasTmo, multi, liveAtCall, subAfterShut>> /\ Fine
        [] e.ev = "del" ->
             /\ deleted' = TRUE
-            /\ UNCHANGED <<kindOf, started, finished, resolved, cancelled, cancelling, running, live, crashed, crashedSettled, brokenSeen, shutdownAt, shutRet, exited, timeouts, maxw, subAfterShut>> /\ Fine
+            /\ UNCHANGED <<kindOf, started, finished, resolved, cancelled, cancelling, running, live, crashed, crashedSettled, brokenSeen, shutdownAt, shutRet, exited, timeouts, maxw, hasTmo, multi, liveAtCall, subAfterShut>> /\ Fine
+       [] e.ev = "reuse_call" ->
+            /\ liveAtCall' = live
+            /\ UNCHANGED <<kindOf, started, finished, resolved, cancelled, cancelling, running, live, crashed, crashedSettled, brokenSeen, shutdownAt, shutRet, exited, deleted, timeouts, maxw, hasTmo, multi, subAfterShut>> /\ Fine
        [] e.ev = "reuse_ret" ->
-            /\ maxw' = IF e.n > maxw THEN e.n ELSE e.n      \* a completed resize / replacement fixes the bound
-            /\ shutdownAt' = IF e.same THEN shutdownAt ELSE "none" /\ shutRet' = IF e.same THEN shutRet ELSE FALSE
-            /\ brokenSeen' = IF e.same THEN brokenSeen ELSE FALSE
-            /\ UNCHANGED <<kindOf, started, finished, resolved, cancelled, cancelling, running, live, crashed, crashedSettled, exited, deleted, timeouts, subAfterShut>>
-            /\ Check(<< <<"C09", e.broken \/ e.shutdown, "C09: get_reusable_executor returned an executor that is broken or shut down">>,
+            /\ maxw' = e.n      \* a completed resize / replacement fixes the bound
+            /\ shutdownAt' = (IF e.same THEN shutdownAt ELSE "none")
+            /\ shutRet' = (IF e.same THEN shutRet ELSE FALSE)
+            /\ brokenSeen' = (IF e.same THEN brokenSeen ELSE FALSE)
+            /\ UNCHANGED <<kindOf, started, finished, resolved, cancelled, cancelling, running, live, crashed, crashedSettled, exited, deleted, timeouts, hasTmo, multi, liveAtCall, subAfterShut>>
+            /\ Check(<< <<"C09", (e.broken \/ e.shutdown) /\ ~multi /\ ~crashed, "C09: get_reusable_executor returned an executor that is broken or shut down">>,
                         <<"C09", e.maxw # e.n, "C09: the returned executor does not have the requested max_workers">>,
-                        <<"C10", e.same /\ e.nproc # e.n, "C10: resize returned without the requested number of workers">>,
+                        <<"C10", e.same /\ e.nbefore > 0 /\ e.nproc # e.n /\ ~hasTmo /\ ~multi /\ ~crashed, "C10: resize returned without the requested number of workers">>,
+                        <<"C10", e.same /\ e.nproc > e.n, "C10: resize returned with more workers than requested">>,
+                        <<"C10", e.same /\ ~hasTmo /\ ~multi /\ ~crashed /\ e.kept < (IF e.nbefore < e.n THEN e.nbefore ELSE e.n),
+                                 "C10: resize restarted worker processes it should have kept">>,
                         <<"C09", ~e.same /\ e.oldeid >= 0 /\ e.eid <= e.oldeid, "C09: a fresh executor does not have a strictly larger executor_id">>,
                         <<"C09", e.same /\ (e.oldbroken \/ e.oldshutdown), "C09: a broken or shut-down instance was reused">> >>)
        [] e.ev = "settled" ->
             /\ crashedSettled' = crashed
-            /\ UNCHANGED <<kindOf, started, finished, resolved, cancelled, cancelling, running, live, crashed, brokenSeen, shutdownAt, shutRet, exited, deleted, timeouts, maxw, subAfterShut>> /\ Fine
+            /\ UNCHANGED <<kindOf, started, finished, resolved, cancelled, cancelling, running, live, crashed, brokenSeen, shutdownAt, shutRet, exited, deleted, timeouts, maxw, hasTmo, multi, liveAtCall, subAfterShut>> /\ Fine
        [] e.ev = "sat_probe" ->
-            /\ UNCHANGED <<kindOf, started, finished, resolved, cancelled, cancelling, running, live, crashed, crashedSettled, brokenSeen, shutdownAt, shutRet, exited, deleted, timeouts, maxw, subAfterShut>>
+            /\ UNCHANGED <<kindOf, started, finished, resolved, cancelled, cancelling, running, live, crashed, crashedSettled, brokenSeen, shutdownAt, shutRet, exited, deleted, timeouts, maxw, hasTmo, multi, liveAtCall, subAfterShut>>
             /\ Check(<< <<"C08", Cardinality(running) < e.n, "C08: fewer than max_workers long tasks run although that many are pending on a healthy executor">> >>)
        [] e.ev = "end" ->
-            /\ UNCHANGED <<kindOf, started, finished, resolved, cancelled, cancelling, running, live, crashed, crashedSettled, brokenSeen, shutdownAt, shutRet, exited, deleted, timeouts, maxw, subAfterShut>>
+            /\ UNCHANGED <<kindOf, started, finished, resolved, cancelled, cancelling, running, live, crashed, crashedSettled, brokenSeen, shutdownAt, shutRet, exited, deleted, timeouts, maxw, hasTmo, multi, liveAtCall, subAfterShut>>
             /\ LET unresolved == {t \in DOMAIN kindOf : t \notin DOMAIN resolved}
                    closing == shutdownAt # "none" \/ exited \/ deleted \/ brokenSeen
                IN Check(<<
@@ -197,6 +207,9 @@ Step ==
                  <<"C02", crashed /\ e.liveprocs # <<>>, "C02: workers are still alive after the pool broke">>,
                  <<"C02", crashed /\ e.unreaped # <<>>, "C02: dead workers were not reaped after the pool broke">>,
                  <<"C07", ~Disturbed /\ unresolved # {}, "C07: a task was lost around an idle-timeout exit">>,
+                 <<"C10", unresolved # {} /\ ~crashed, "C10: a task submitted before a resize never completed">>,
+                 <<"C10", e.how # "quiescent" \/ e.blockedusers # <<>>, "C10: a get_reusable_executor / resize call never returns">>,
+                 <<"C09", (e.how # "quiescent" \/ e.blockedusers # <<>> \/ unresolved # {}) /\ ~crashed, "C09: a caller of get_reusable_executor did not obtain a working executor (call or task never completes)">>,
                  <<"C04", ~Disturbed /\ unresolved # {}, "C04: a task-level failure was not contained: other futures never get their outcome">>,
                  <<"C04", ~Disturbed /\ e.how # "quiescent", "C04: a task-level failure wedged the pool (the execution never settles)">>,
                  <<"C03", ~Disturbed /\ ~closing /\ unresolved # {}, "C03: a submitted task never delivered its result">>,
@@ -209,7 +222,7 @@ Step ==
                  <<"C20", closing /\ (e.liveprocs # <<>> \/ e.unreaped # <<>> \/ e.mgmtalive), "C20: processes or threads are left behind by a completed lifecycle">>
                >>)
        [] OTHER ->
-            /\ UNCHANGED <<kindOf, started, finished, resolved, cancelled, cancelling, running, live, crashed, crashedSettled, brokenSeen, shutdownAt, shutRet, exited, deleted, timeouts, maxw, subAfterShut>> /\ Fine
+            /\ UNCHANGED <<kindOf, started, finished, resolved, cancelled, cancelling, running, live, crashed, crashedSettled, brokenSeen, shutdownAt, shutRet, exited, deleted, timeouts, maxw, hasTmo, multi, liveAtCall, subAfterShut>> /\ Fine
 
 Spec == Init /\ [][Step \/ Skip \/ Report]_vars
 =============================================================================
